@@ -20,6 +20,9 @@ COMMON_NOTE = ("Trusted: the harness's dense long-double reference, the choice-s
                "Exploration only: the property is shown to hold on the generated cases (counts in the evidence file), nothing is proved.")
 
 INFO = {
+    "C17": dict(level="exploration", assumptions=["optimality decided through LP duality (dual feasibility + complementary slackness) in the log domain with tolerance 64*n*eps*(1+max|log|)", "brute force over all permutations for n <= 7"], note=COMMON_NOTE,
+                technique="property-based testing (rapidcheck): LP-duality certificate check of the returned matching and scalings, brute-force differential for small n, reference bipartite matching for structural singularity",
+                text="Generated square matrices with wide magnitude ranges, ties and zero diagonals go through ?ldperm(job 5); the returned permutation and scalings are validated as an optimality certificate and against brute force."),
     "C11": dict(level="exploration", assumptions=["long double reference maxima; ratios judged only when every maximum lies inside [safmin, 1/safmin]; column stage not judged when a scaled maximum underflows in working precision"], note=COMMON_NOTE,
                 technique="property-based testing (rapidcheck) against a long-double reference implementation of the equilibration definition over the whole floating-point range",
                 text="Generated m x n matrices with entries from subnormal to near-overflow magnitudes are equilibrated; factors, ratios, error positions and the application rule are compared with a reference computed from the definition."),
@@ -45,7 +48,7 @@ INFO = {
 
 NOT_APPLICABLE = {}
 
-PROPS = ["C01", "C02", "C03", "C04", "C05", "C10", "C11"]
+PROPS = ["C01", "C02", "C03", "C04", "C05", "C10", "C11", "C17"]
 
 
 def all_props():
